@@ -21,6 +21,8 @@ Lines (tab separated):
                                                a top-level field of the module's exported genesis JSON (after the last case)
   gen.list    <module> <json path> <records in the richest state> <id pairs seen different> <id pairs> <pairs equal in every record|-> <reason|->
                                                a record list at any depth of the exported genesis
+  gen.msgtype <type url> <accepted> <refused> <reason|->   a registered comdex message type and how often the continuation workload delivered
+                                               it on the original chain (BAD if never accepted and no reason is given)
   gen.coverage <module>                        all gen.field lines sent: every `genFields` entry of the regenerated table must have been
                                                reported, record lists non-empty in at least one state (BAD otherwise: a hole in the fixture)
 
@@ -158,6 +160,9 @@ def handle (st : St) (seq : String) (f : List String) : St × List String :=
   | ["gen.list", mod, path, n, _, _, missing, why] =>
     (st, (if n.toNat? == some 0 && why == "-" then [s!"BAD\t{seq}\tpopulation: record list {mod}.{path} is empty in every exported state"] else []) ++
          (if missing != "-" then [s!"BAD\t{seq}\tpopulation: id fields {missing} of {mod}.{path} are equal in every record of every exported state"] else []))
+  | ["gen.msgtype", url, ok, _, why] =>
+    (st, if ok.toNat? == some 0 && why == "-" then
+      [s!"BAD\t{seq}\tcontinuation: no operation of message type {url} was accepted on the original chain after the export"] else [])
   | ["gen.coverage", mod] =>
     match modules.find? (fun m => m.name == mod) with
     | none => (st, [s!"BAD\t{seq}\tunknown module {mod}"])
